@@ -23,7 +23,7 @@ def own(key):
 
 def run(tier, seed, scale=1.0):
     t0 = time.time()
-    n = int((10000 if tier == "quick" else 600000) * scale)
+    n = int((4000 if tier == "quick" else 400000) * scale)
     res = vdriver.explore(common.spec("simnet", "transport", seed), n, chunk=max(100, n // 128), chunk_timeout=900)
     return common.finish(PROP, tier, seed, "exploration", res, own, RULE, t0, min_conclusive=int(2000 * scale),
                          assumptions=["both runs see deterministic servers with fixed delays; virtual time does not advance "
